@@ -159,7 +159,9 @@ func entry(resource string, options *EntryOptions) (*base.SentinelEntry, *base.B
 	ctx.Input.BatchCount = options.batchCount
 	ctx.Input.Flag = options.flag
 	if len(options.args) != 0 {
-		ctx.Input.Args = options.args
+		// copy: options (and the backing array of options.args) goes back to its pool when this function returns,
+		// while the entry keeps reading its arguments until Exit
+		ctx.Input.Args = append(make([]interface{}, 0, len(options.args)), options.args...)
 	}
 	if len(options.attachments) != 0 {
 		ctx.Input.Attachments = options.attachments
